@@ -2,6 +2,7 @@ package main
 
 import (
 	"go/token"
+	"go/types"
 	"strings"
 
 	"golang.org/x/tools/go/ssa"
@@ -31,6 +32,7 @@ func runC01(c *Ctx) {
 	c01SegmentLoop(c)
 	c01Choice(c)
 	c01SelectorRewrite(c)
+	c01StockHookAndVariants(c)
 }
 
 // (a)
@@ -782,4 +784,86 @@ func c01SelectorRewrite(c *Ctx) {
 	depth := c.CallsInl(w.SSA, Invoke("NodeAssembler.AssignInt", Any(), Call("selector.RecursionLimit).Depth", Op("param", limitParam.Name()))), 2)
 	c.Check(len(depth) == 1, "C01.g-selector-rewrite", w.Name+" › new limit", w.SSA.Pos(), "the depth written is the given limit's depth", "rewritten selector does not carry the given limit")
 	c.Floor("C01.g-selector-rewrite", 3)
+}
+
+// (h) the stock hook and the all-links entry points
+func c01StockHookAndVariants(c *Ctx) {
+	// MakeGeneralBlockHook: the hook decides the continuation for EVERY block it sees — the next CID is whatever the
+	// caller's function says precedes this block (cid.Undef at the end of the chain included), or the sync is failed.
+	// Leaving the previous block's decision in place lets the next segment start at a block already reported.
+	if mk := c.Func(dagsyncPkg, "MakeGeneralBlockHook"); mk != nil && len(mk.SSA.AnonFuncs) == 1 {
+		hook := mk.SSA.AnonFuncs[0]
+		setNext := Invoke("SegmentSyncActions.SetNextSyncCid")
+		fail := Invoke("SegmentSyncActions.FailSync")
+		decided := func(in ssa.Instruction) bool {
+			ci, ok := in.(ssa.CallInstruction)
+			if !ok {
+				return false
+			}
+			x := c.CallX(ci)
+			_, a := Match(setNext, x)
+			_, b := Match(fail, x)
+			return a || b
+		}
+		ok, path := allPathsPass(hook, decided)
+		c.Check(ok, "C01.h-stock-hook-decides", c.short(mk.SSA.String())+" › every block sets the continuation", hook.Pos(),
+			"every path through the hook calls SetNextSyncCid or FailSync", "a path through the stock hook leaves the continuation of the previous block in place ("+path+"): the next segment re-reports a block, so blocks and count depend on the segment size")
+		// what it sets is what the caller's lookup returned for this block
+		okArg := false
+		for _, cs := range c.Calls(hook, setNext) {
+			if len(cs.X.Args) == 2 {
+				if _, m := Match(Extract("0", Op("dyncall", "")), cs.X.Args[1]); m {
+					okArg = true
+					_, g := c.Guarded(cs.In, EqNil(Extract("1", Op("dyncall", ""))), true)
+					okArg = okArg && g
+				}
+			}
+		}
+		c.Check(okArg, "C01.h-stock-hook-decides", c.short(mk.SSA.String())+" › continuation is the looked-up predecessor", hook.Pos(),
+			"SetNextSyncCid receives the predecessor returned by the caller's lookup, on its err == nil edge", "the stock hook does not continue with the predecessor its lookup returned")
+	} else {
+		c.Unk("C01.h-stock-hook-decides", "dagsync.MakeGeneralBlockHook", token.NoPos, "not found, or not a single function literal")
+	}
+	c.Floor("C01.h-stock-hook-decides", 2)
+
+	// all-links and single-block selectors carry no depth to split: such syncs must not be segmented
+	n := 0
+	for _, f := range c.Funcs(dagsyncPkg) {
+		for _, cs := range c.Calls(f.SSA, Any()) {
+			callee := cs.In.Common().StaticCallee()
+			if callee == nil || callee.Pkg != f.SSA.Pkg || callee.Signature.Params().Len() < 2 {
+				continue
+			}
+			// a same-package routine taking (…, selector node, hook, segment size)
+			ps := callee.Signature.Params()
+			selIdx, segIdx := -1, -1
+			for i := 0; i < ps.Len(); i++ {
+				switch ts := types.Unalias(ps.At(i).Type()).String(); {
+				case strings.HasSuffix(ts, "go-ipld-prime/datamodel.Node"):
+					selIdx = i
+				case ts == "int64":
+					segIdx = i
+				}
+			}
+			if selIdx < 0 || segIdx < 0 || callee.Signature.Recv() == nil {
+				continue
+			}
+			off := 1 // receiver
+			if len(cs.X.Args) != ps.Len()+off {
+				continue
+			}
+			selArg, segArg := cs.X.Args[selIdx+off], cs.X.Args[segIdx+off]
+			unlimited := selArg.Contains(func(y *X) bool {
+				return y.Op == "field" && (y.Name == "selectorAll" || y.Name == "selectorOne") && fieldOwner(y) == "Subscriber"
+			})
+			if !unlimited {
+				continue
+			}
+			n++
+			k, isConst := constInt(segArg)
+			c.Check(isConst && k <= 0, "C01.h-all-links-unsegmented", f.Name+" › "+c.short(callee.String()), cs.In.Pos(),
+				"a sync with the all-links / single-block selector is started with segmentation off", "an all-links or single-block sync is started with a segment size ("+abbreviate(segArg.String())+"): the traversal is cut at the segment depth and nothing continues it, so deeper blocks are never fetched although the sync reports success")
+		}
+	}
+	c.Floor("C01.h-all-links-unsegmented", 2)
 }
